@@ -22,8 +22,11 @@ int __real_select(int, fd_set *, fd_set *, fd_set *, struct timeval *);
 int __real_socket(int, int, int); int __real_bind(int, const struct sockaddr *, socklen_t); int __real_listen(int, int);
 int __real_connect(int, const struct sockaddr *, socklen_t); int __real_accept(int, struct sockaddr *, socklen_t *);
 
+/* storms: every real call on the descriptor under test is preceded by g_storm transient failures and moves at most 1500 bytes */
+static int g_storm_r, g_storm_w, g_storm_cr, g_storm_cw;
 ssize_t __wrap_read(int fd, void *buf, size_t n)
 {
+    if (fd == g_rd_fd && g_storm_r && n > 0) { if (g_storm_cr < g_storm_r) { g_storm_cr++; errno = EINTR; return -1; } g_storm_cr = 0; if (n > 1500) n = 1500; }
     if (fd == g_rd_fd && mc_e3_active() && n > 0) {
         int c = mc_choose(4);
         if (c == 1) n = 1; else if (c == 2) n = n > 1 ? n / 2 : 1; else if (c == 3) { errno = EINTR; return -1; }
@@ -32,6 +35,7 @@ ssize_t __wrap_read(int fd, void *buf, size_t n)
 }
 ssize_t __wrap_write(int fd, const void *buf, size_t n)
 {
+    if (fd == g_wr_fd && g_storm_w && n > 0) { if (g_storm_cw < 2 * g_storm_w) { errno = g_storm_cw < g_storm_w ? EINTR : EAGAIN; g_storm_cw++; return -1; } g_storm_cw = 0; if (n > 1500) n = 1500; }
     if (fd == g_wr_fd && mc_e3_active() && n > 0) {
         int c = mc_choose(5);
         if (c == 1) n = 1; else if (c == 2) n = n > 1 ? n / 2 : 1; else if (c == 3) { errno = EINTR; return -1; } else if (c == 4) { errno = EAGAIN; return -1; }
@@ -55,7 +59,7 @@ static void setpath(void)
     snprintf(g_path, sizeof g_path, "%s/sk%d", td ? td : "/tmp", (int) getpid());      /* one socket path per worker process */
     snprintf(g_urltext, sizeof g_urltext, "unix:%s", g_path);
 }
-static int lowest_free_fd(void) { int d = dup(0); if (d >= 0) close(d); return d; }
+static int lowest_free_fd(void) { int d = open("/dev/null", O_RDONLY); if (d >= 0) close(d); return d; }
 static int fd_open(int fd) { return fd >= 0 && fcntl(fd, F_GETFD) != -1; }
 static spif_socket_t mk_listener(void) { spif_url_t u = spif_url_new_from_ptr((spif_charptr_t) g_urltext); spif_socket_t s = spif_socket_new_from_urls(u, (spif_url_t) NULL); spif_url_del(u); return s; }
 static spif_socket_t mk_client(void) { spif_url_t u = spif_url_new_from_ptr((spif_charptr_t) g_urltext); spif_socket_t s = spif_socket_new_from_urls((spif_url_t) NULL, u); spif_url_del(u); return s; }
@@ -63,7 +67,7 @@ static spif_socket_t mk_client(void) { spif_url_t u = spif_url_new_from_ptr((spi
 /* ------------------------------------------------------------------ (1) transfer under fault schedules */
 static const int LENS[] = { 1, 2, 4095, 4096, 4097, 8192, 16385, 20000 };
 #define NLENS ((int) (sizeof LENS / sizeof *LENS))
-static int g_len, g_close_first, g_k, g_dev;
+static int g_len, g_close_first, g_k, g_dev, g_free0;
 static void tr_decode(uint64_t i) { g_len = LENS[i % NLENS]; g_close_first = (int) ((i / NLENS) % 2); }
 static void tr_desc(uint64_t i, void *ctx, char *b, size_t n)
 {
@@ -77,7 +81,7 @@ static void tr_run(void *ctx)
     char shape[64]; snprintf(shape, sizeof shape, "%s", g_len <= 4096 ? "payload within one read chunk" : "payload beyond one read chunk");
     mc_set_shape(shape);
     setpath();
-    int fd0 = lowest_free_fd();
+    int fd0 = lowest_free_fd(), saved0 = -1;
     unlink(g_path);
     spif_socket_t L = mk_listener(), C = mk_client(), A = NULL;
     char *payload = malloc((size_t) g_len + 1);
@@ -87,8 +91,9 @@ static void tr_run(void *ctx)
     if (!L || !C || !spif_socket_open(L)) { FAIL("spif_socket_open", "model:return", shape, "listener could not be opened on %s", g_path); goto out; }
     spif_socket_set_nbio(L);
     if (!spif_socket_open(C)) { FAIL("spif_socket_open", "model:return", shape, "client could not connect to %s", g_path); goto out; }
+    if (g_free0) { saved0 = dup(0); close(0); }             /* a daemon that closed its standard descriptors after binding: accept() returns 0 */
     A = spif_socket_accept(L);
-    if (!A) { FAIL("spif_socket_accept", "model:return", shape, "accept returned NULL with a connection pending"); goto out; }
+    if (!A) { FAIL("spif_socket_accept", "model:return", shape, "accept returned NULL with a connection pending%s", g_free0 ? " (descriptor 0 was free)" : ""); goto out; }
     g_wr_fd = C->fd; g_rd_fd = A->fd;
     spif_bool_t sent = spif_socket_send(C, data);
     g_wr_fd = -1;
@@ -111,6 +116,10 @@ out:
     if (L) spif_socket_del(L);
     spif_str_del(data); free(payload);
     unlink(g_path);
+    if (saved0 >= 0) {
+        if (fcntl(0, F_GETFD) != -1) { FAIL("spif_socket", "fd-leak", shape, "descriptor 0, handed out by accept(), is still open after every socket object was deleted"); close(0); }
+        dup2(saved0, 0); close(saved0);
+    }
     int fd1 = lowest_free_fd();
     if (fd1 != fd0) FAIL("spif_socket", "fd-leak", shape, "lowest free descriptor moved from %d to %d: a descriptor outlived its socket object", fd0, fd1);
 }
@@ -121,6 +130,26 @@ static void tr_case(uint64_t i, void *ctx)
     mc_stat_add("e3_executions", (long) st.executions);
     mc_nontrivial();
     mc_outcome((uint64_t) st.executions * 31 + (uint64_t) g_len);
+}
+
+/* ------------------------------------------------------------------ (1b) interrupt storms and a free descriptor 0 */
+static const int STORM[] = { 30, 101, 300 };
+static void st_desc(uint64_t i, void *ctx, char *b, size_t n)
+{
+    (void) ctx;
+    if (i < 6) snprintf(b, n, "transfer of 10000 bytes where every %s call is preceded by %d %s and moves at most 1500 bytes", i % 2 ? "write()" : "read()", STORM[i / 2], i % 2 ? "EINTR and as many EAGAIN failures" : "EINTR failures");
+    else snprintf(b, n, "transfer of %d bytes where descriptor 0 is closed after listener and client are open (accept() returns 0)", i == 6 ? 1 : 10000);
+}
+static void st_case(uint64_t i, void *ctx)
+{
+    (void) ctx;
+    g_len = (i == 6) ? 1 : 10000; g_close_first = 0; g_k = 0; g_dev = 0;
+    if (i < 6) { if (i % 2) g_storm_w = STORM[i / 2]; else g_storm_r = STORM[i / 2]; g_storm_cr = g_storm_cw = 0; }
+    else g_free0 = 1;
+    tr_run(NULL);
+    g_storm_r = g_storm_w = 0; g_free0 = 0;
+    mc_nontrivial();
+    mc_outcome(i);
 }
 
 /* ------------------------------------------------------------------ (2) lifecycle */
@@ -260,12 +289,13 @@ int main(int argc, char **argv)
     int depth = (int) mc_arg_int("depth", mc_thorough() ? 7 : 5);
     build_ops();
     mc_info("alphabet", "transfer: payload lengths {1,2,4095,4096,4097,8192,16385,20000} x {client closes, stays open} x E3 schedules over the first %d read/write calls, <= %d deviations; "
-            "lifecycle: %d opcodes on listener/client/accepted/duplicate incl. injected socket/bind/listen/connect/accept failures, depth <= %d; descriptor census by lowest-free-descriptor", g_k, g_dev, NOPS, depth);
+            "storms: 30/101/300 EINTR (and EAGAIN on write) failures before every call, 1500-byte moves; transfers with descriptor 0 closed; lifecycle: %d opcodes on listener/client/accepted/duplicate incl. injected socket/bind/listen/connect/accept failures, depth <= %d; descriptor census by lowest-free-descriptor", g_k, g_dev, NOPS, depth);
     /* every worker gets its own socket path (the path is fixed up after fork through the pid) */
     (void) td; setpath();
     if (!mc_arg("only", NULL) || !strcmp(mc_arg("only", ""), "transfer")) {
         /* E2 workers are forked inside mc_e2_level; make the path unique per case instead of per process */
         mc_e2_level("transfer", g_k * 10 + g_dev, (uint64_t) NLENS * 2, tr_case, tr_desc, NULL);
+        { int k = g_k, d = g_dev; mc_e2_level("storm", 300, 8, st_case, st_desc, NULL); g_k = k; g_dev = d; }
     }
     if (!mc_arg("only", NULL) || !strcmp(mc_arg("only", ""), "lifecycle")) {
         mc_sys sys = { "lifecycle", NOPS, op_name, fresh, enabled, apply, NULL, canon, teardown, (int) mc_arg_int("lookahead", 1) };
